@@ -159,3 +159,228 @@ Example ex_concurrent :
             lookup g [2;1] = Some (KFile, 104) /\ lookup g [2;3] = Some (KFile, 202) /\
             lookup g [1;4] = Some (KFile, 201).
 Proof. vm_compute. repeat split; try reflexivity; eexists; repeat split; reflexivity. Qed.
+
+(* ====================================================================================
+   FileTracker (file_tracker/file_tracker.py with utils.mkstemp_clean / utils._clean_up):
+   Model/Tracker.v, proofs in Proofs/TrackerP.v.  One life of a tracker on an initial file
+   system f0 is   FileTracker(tmp) ; mid ; del   where `mid` is an ARBITRARY sequence of
+   add_file / real_location / file_exists calls and of writes of the environment
+   (`forallb mid_op mid`: no second constructor call, no second del);
+     alive f0 tmp n0 mid = the state before del,  life f0 tmp n0 mid = the state after del;
+   n0 and the names in the AddFile steps are what tempfile drew (inputs of the steps).
+   Hypotheses: f0 is well formed (what exists lies in a directory), the tmp_dir is a
+   directory, the drawn name is new.
+   `writes_ok` is the protocol of the callers (run_mapping): the environment writes only
+   to locations real_location has returned so far.  It is a HYPOTHESIS on the environment,
+   not something the tracker enforces.
+   (imported here: Model/Tracker.v reuses the names step / run / Create / del of FsModel)
+   ==================================================================================== *)
+From CTM Require Import Model.Tracker Proofs.TrackerP.
+
+(* (1) With a tmp_dir: every file that existed before the tracker was made has its content
+   while the tracker lives and after del — whatever was added, in whatever mode.  In
+   particular add_file(p, input_only=False) of an EXISTING p treats p as an input: it is
+   copied into the temp directory, recorded as pre-existing, NOT scheduled for copy-out;
+   what the pipeline writes to its real_location is discarded by del (ex_tracker_life:
+   content 101 is lost, the old result 21 stays).
+   Without a tmp_dir the tracker never touches the file system: a path changes only if the
+   environment writes to it; real_location(p) is p itself — the environment writing to the
+   real_location of an input writes the input (c19_tracker_inputs_untouched_no_tmp_refuted). *)
+Theorem c19_tracker_inputs_untouched :
+  (forall f0 d n0 mid p c,
+     wf f0 -> look f0 d = Dir -> look f0 (d ++ [n0]) = Absent -> forallb mid_op mid = true ->
+     writes_ok (start f0) [] (Create (Some d) n0 :: mid) = true ->
+     look f0 p = File c ->
+     look (s_fs (alive f0 (Some d) n0 mid)) p = File c /\
+     look (s_fs (life f0 (Some d) n0 mid)) p = File c) /\
+  (forall f0 n0 mid q,
+     forallb mid_op mid = true ->
+     forallb (fun o => negb (writes_to q o)) mid = true ->
+     look (s_fs (alive f0 None n0 mid)) q = look f0 q /\
+     look (s_fs (life f0 None n0 mid)) q = look f0 q /\
+     snd (step (alive f0 None n0 mid) Del) = OOk /\
+     (forall p l, snd (step (alive f0 None n0 mid) (RealLocation p)) = OLoc l -> l = p)).
+Proof. exact tracker_inputs_untouched. Qed.
+Print Assumptions c19_tracker_inputs_untouched.
+
+(* (2) After del (which succeeds: output OOk, for EVERY call sequence, also when the
+   environment writes anywhere) the tracker is gone, its temp directory and everything
+   below it is absent; under the protocol nothing else is new anywhere — so in particular
+   nothing under the tmp_dir parent — except paths given to add_file(.., input_only=False). *)
+Theorem c19_tracker_scratch_empty : forall f0 d n0 mid,
+  wf f0 -> look f0 d = Dir -> look f0 (d ++ [n0]) = Absent -> forallb mid_op mid = true ->
+  s_tr (life f0 (Some d) n0 mid) = None /\
+  snd (step (alive f0 (Some d) n0 mid) Del) = OOk /\
+  (forall q, is_prefix (d ++ [n0]) q = true -> look (s_fs (life f0 (Some d) n0 mid)) q = Absent) /\
+  (writes_ok (start f0) [] (Create (Some d) n0 :: mid) = true ->
+   forall q, look f0 q = Absent -> look (s_fs (life f0 (Some d) n0 mid)) q <> Absent ->
+             In q (requested mid)).
+Proof. exact tracker_scratch_empty. Qed.
+Print Assumptions c19_tracker_scratch_empty.
+
+(* (3) With a tmp_dir, under the protocol: what is new after del was requested by
+   add_file(.., input_only=False); what del copies out (_to_write_out) was requested and did
+   not exist before; and — when no requested path lies inside the tracker's own directory —
+   each copied-out path holds exactly what its real_location held when del ran, which is
+   the content last written there (c19_tracker_location_holds_last_write).  Without a
+   tmp_dir the writes went to the paths themselves (second half of (1)). *)
+Theorem c19_tracker_outputs_only_where_requested : forall f0 d n0 mid,
+  wf f0 -> look f0 d = Dir -> look f0 (d ++ [n0]) = Absent -> forallb mid_op mid = true ->
+  writes_ok (start f0) [] (Create (Some d) n0 :: mid) = true ->
+  (forall q, look f0 q = Absent -> look (s_fs (life f0 (Some d) n0 mid)) q <> Absent -> In q (requested mid)) /\
+  (forall dst, In dst (outs_of (alive f0 (Some d) n0 mid)) -> In dst (requested mid) /\ look f0 dst = Absent) /\
+  ((forall p, In p (requested mid) -> is_prefix (d ++ [n0]) p = false) ->
+   forall dst, In dst (outs_of (alive f0 (Some d) n0 mid)) ->
+   exists src c, snd (step (alive f0 (Some d) n0 mid) (RealLocation dst)) = OLoc src /\
+                 look (s_fs (alive f0 (Some d) n0 mid)) src = File c /\
+                 look (s_fs (life f0 (Some d) n0 mid)) dst = File c).
+Proof. exact tracker_outputs_only_where_requested. Qed.
+Print Assumptions c19_tracker_outputs_only_where_requested.
+
+Theorem c19_tracker_location_holds_last_write : forall f0 d n0 m1 l c m2,
+  wf f0 -> look f0 d = Dir -> look f0 (d ++ [n0]) = Absent ->
+  forallb mid_op (m1 ++ WriteTo l c :: m2) = true ->
+  writes_ok (start f0) [] (Create (Some d) n0 :: m1 ++ WriteTo l c :: m2) = true ->
+  forallb (fun o => negb (writes_to l o)) m2 = true ->
+  look (s_fs (alive f0 (Some d) n0 (m1 ++ WriteTo l c :: m2))) l = File c.
+Proof. exact tracker_location_holds_last_write. Qed.
+Print Assumptions c19_tracker_location_holds_last_write.
+
+(* (4) If, after any calls among which the environment wrote neither to l nor to p,
+   real_location(p) is l and file_exists(p) is True, then l holds a file with the content
+   p has now, and that is the content p had before the tracker was made (if it existed
+   then). *)
+Theorem c19_tracker_copy_faithful : forall f0 d n0 mid p l,
+  wf f0 -> look f0 d = Dir -> look f0 (d ++ [n0]) = Absent -> forallb mid_op mid = true ->
+  forallb (fun o => negb (writes_to l o) && negb (writes_to p o)) mid = true ->
+  snd (step (alive f0 (Some d) n0 mid) (RealLocation p)) = OLoc l ->
+  snd (step (alive f0 (Some d) n0 mid) (FileExists p)) = OBool true ->
+  look (s_fs (alive f0 (Some d) n0 mid)) l = look (s_fs (alive f0 (Some d) n0 mid)) p /\
+  (exists c, look (s_fs (alive f0 (Some d) n0 mid)) p = File c) /\
+  (look f0 p <> Absent -> look (s_fs (alive f0 (Some d) n0 mid)) p = look f0 p).
+Proof. exact tracker_copy_faithful. Qed.
+Print Assumptions c19_tracker_copy_faithful.
+
+(* (5) Two initial file systems that differ ONLY in what lies in the tmp_dir parent d under
+   other names than the tracker's directory (stale d T q: q below d, not T, not below T),
+   and calls that name no such path: every call returns the same, the final file systems
+   agree outside the stale part, and the stale part of each is exactly as it was (neither
+   read — the outputs do not depend on it — nor changed).  The drawn names are the same in
+   both runs (they are inputs; they are legal in both because T is not stale). *)
+Theorem c19_tracker_independent_of_stale : forall d n0 f0 f0' mid,
+  wf f0 -> wf f0' -> look f0 d = Dir -> look f0 (d ++ [n0]) = Absent -> forallb mid_op mid = true ->
+  (forall q, stale d (d ++ [n0]) q = false -> look f0 q = look f0' q) ->
+  (forall o p, In o mid -> In p (op_paths o) -> stale d (d ++ [n0]) p = false) ->
+  snd (run (start f0) (Create (Some d) n0 :: mid ++ [Del])) =
+  snd (run (start f0') (Create (Some d) n0 :: mid ++ [Del])) /\
+  (forall q, stale d (d ++ [n0]) q = false ->
+     look (s_fs (life f0 (Some d) n0 mid)) q = look (s_fs (life f0' (Some d) n0 mid)) q) /\
+  (forall q, stale d (d ++ [n0]) q = true ->
+     look (s_fs (life f0 (Some d) n0 mid)) q = look f0 q /\
+     look (s_fs (life f0' (Some d) n0 mid)) q = look f0' q).
+Proof. exact tracker_independent_of_stale. Qed.
+Print Assumptions c19_tracker_independent_of_stale.
+
+(* A life leaves a well-formed file system well formed (also without tmp_dir, also when the
+   environment writes anywhere): the theorems above apply again to the next tracker, on what
+   this one left — histories of runs sharing a tmp_dir are covered by iterating them. *)
+Theorem c19_tracker_life_keeps_wf : forall f0 tmp n0 mid,
+  wf f0 -> forallb mid_op mid = true ->
+  match tmp with Some d => look f0 d = Dir /\ look f0 (d ++ [n0]) = Absent | None => True end ->
+  wf (s_fs (life f0 tmp n0 mid)).
+Proof. exact tracker_life_keeps_wf. Qed.
+Print Assumptions c19_tracker_life_keeps_wf.
+
+(* ------------------------------------------------------------------ examples (tracker) *)
+(* names: 1 = in/, 2 = out/, 3 = tmp/; [1;1] query (11), [1;2] statistics (12); [2;1] the
+   result of an earlier run (21); tmp/ holds a stale file_tracker_* directory 9 with a file *)
+Definition tr_fs : fs :=
+  [([], (KDir, 0)); ([1], (KDir, 0)); ([2], (KDir, 0)); ([3], (KDir, 0));
+   ([1;1], (KFile, 11)); ([1;2], (KFile, 12)); ([2;1], (KFile, 21));
+   ([3;9], (KDir, 0)); ([3;9;1], (KFile, 7))].
+(* the query is added as input, [2;2] as a new output, [2;1] — which exists — as output;
+   the pipeline asks for the locations and writes 100 to that of [2;2], 101 to that of [2;1] *)
+Definition tr_mid : list op :=
+  [ AddFile [1;1] true 51; AddFile [2;2] false 52; AddFile [2;1] false 53;
+    RealLocation [1;1]; RealLocation [2;2]; WriteTo [3;5;52] 100;
+    RealLocation [2;1]; WriteTo [3;5;53] 101; FileExists [2;1]; FileExists [2;2] ].
+
+Example ex_tracker_hypotheses :
+  wf tr_fs /\ look tr_fs [3] = Dir /\ look tr_fs ([3] ++ [5]) = Absent /\
+  forallb mid_op tr_mid = true /\
+  writes_ok (start tr_fs) [] (Create (Some [3]) 5 :: tr_mid) = true /\
+  requested tr_mid = [[2;2]; [2;1]] /\
+  outs_of (alive tr_fs (Some [3]) 5 tr_mid) = [[2;2]] /\
+  (forall p, In p (requested tr_mid) -> is_prefix ([3] ++ [5]) p = false).
+Proof.
+  split; [apply wfb_wf; vm_compute; reflexivity|].
+  repeat (split; [vm_compute; reflexivity|]).
+  intros p [<-|[<-|[]]]; vm_compute; reflexivity.
+Qed.
+
+(* the life: outputs of the calls, and the file system after del: the inputs and the stale
+   file as before, the new output holds what was written to its location, the EXISTING
+   output [2;1] still holds 21 (101 is lost), the tracker directory [3;5] is gone *)
+Example ex_tracker_life :
+  snd (run (start tr_fs) (Create (Some [3]) 5 :: tr_mid ++ [Del])) =
+    [OOk; OOk; OOk; OOk; OLoc [3;5;51]; OLoc [3;5;52]; OOk; OLoc [3;5;53]; OOk;
+     OBool true; OBool false; OOk] /\
+  look (s_fs (alive tr_fs (Some [3]) 5 tr_mid)) [3;5;51] = File 11 /\
+  look (s_fs (alive tr_fs (Some [3]) 5 tr_mid)) [3;5;53] = File 101 /\
+  let g := s_fs (life tr_fs (Some [3]) 5 tr_mid) in
+  look g [1;1] = File 11 /\ look g [2;2] = File 100 /\ look g [2;1] = File 21 /\
+  look g [3;5] = Absent /\ look g [3;5;52] = Absent /\ look g [3;9;1] = File 7.
+Proof. vm_compute. repeat split; reflexivity. Qed.
+
+(* (1) fails without a tmp_dir when the environment writes to the real_location of an
+   input: the location IS the input *)
+Theorem c19_tracker_inputs_untouched_no_tmp_refuted :
+  exists f0 n0 mid p c,
+    wf f0 /\ forallb mid_op mid = true /\
+    writes_ok (start f0) [] (Create None n0 :: mid) = true /\
+    look f0 p = File c /\
+    snd (run (start f0) (Create None n0 :: mid)) = [OOk; OOk; OLoc p; OOk] /\
+    look (s_fs (life f0 None n0 mid)) p <> File c.
+Proof.
+  exists tr_fs, 0, [AddFile [1;1] true 0; RealLocation [1;1]; WriteTo [1;1] 100], [1;1], 11.
+  split; [apply wfb_wf; vm_compute; reflexivity|].
+  repeat (split; [vm_compute; reflexivity|]). vm_compute. discriminate.
+Qed.
+Print Assumptions c19_tracker_inputs_untouched_no_tmp_refuted.
+
+(* add_file twice for the same new output: the second call draws a new location; what was
+   written to the first is lost, the path is copied out twice from the second *)
+Example ex_tracker_added_twice :
+  let mid := [AddFile [2;2] false 52; RealLocation [2;2]; WriteTo [3;5;52] 100;
+              AddFile [2;2] false 54; RealLocation [2;2]] in
+  snd (run (start tr_fs) (Create (Some [3]) 5 :: mid)) = [OOk; OOk; OLoc [3;5;52]; OOk; OOk; OLoc [3;5;54]] /\
+  outs_of (alive tr_fs (Some [3]) 5 mid) = [[2;2]; [2;2]] /\
+  look (s_fs (life tr_fs (Some [3]) 5 mid)) [2;2] = File empty_content.
+Proof. vm_compute. repeat split; reflexivity. Qed.
+
+(* the error branches of add_file / real_location / file_exists and of the constructor *)
+Example ex_tracker_errors :
+  snd (run (start tr_fs)
+         [Create (Some [3]) 5; AddFile [1] true 60; AddFile [1;7] true 60; AddFile [2;8;1] false 60;
+          AddFile [1;1;4] false 60; RealLocation [1;2]; FileExists [1;2]; AddFile [1;2] true 9]) =
+    [OOk; OErr 1; OErr 2; OErr 3; OErr 3; OErr 4; OErr 4; OOk] /\
+  snd (step (start tr_fs) (Create (Some [1;1]) 5)) = OErr 9 /\
+  snd (step (start tr_fs) (Create (Some [3]) 9)) = OErr 5.
+Proof. vm_compute. repeat split; reflexivity. Qed.
+
+(* (5): the same life on a file system with OTHER stale entries in tmp/ *)
+Definition tr_fs' : fs :=
+  [([], (KDir, 0)); ([1], (KDir, 0)); ([2], (KDir, 0)); ([3], (KDir, 0));
+   ([1;1], (KFile, 11)); ([1;2], (KFile, 12)); ([2;1], (KFile, 21));
+   ([3;8], (KFile, 3)); ([3;4], (KDir, 0)); ([3;4;51], (KFile, 4))].
+Example ex_tracker_stale_hypotheses :
+  wf tr_fs' /\
+  (forall q, stale [3] ([3] ++ [5]) q = false -> look tr_fs q = look tr_fs' q) /\
+  (forall o p, In o tr_mid -> In p (op_paths o) -> stale [3] ([3] ++ [5]) p = false) /\
+  stale [3] ([3] ++ [5]) [3;9;1] = true /\ look tr_fs [3;9;1] <> look tr_fs' [3;9;1].
+Proof.
+  split; [apply wfb_wf; vm_compute; reflexivity|].
+  split; [apply agree_b_spec; vm_compute; reflexivity|].
+  split; [apply ops_ns_b_spec; vm_compute; reflexivity|].
+  split; [vm_compute; reflexivity | vm_compute; discriminate].
+Qed.
